@@ -33,15 +33,45 @@ SIMPLIFY = {"o": lambda v: "pass" if not v.startswith("<") else None, "bg": "nul
 WATCHDOG_S = {"quick": 900, "thorough": 4 * 3600}
 
 
+def instance_lines(feat, facts):
+    """Line of every scenario instance (plain scenario: its own line, outline row: the row's line), parallel to
+    scenario_instances(feat).  Lines are the identity of scenarios here (names need not be unique)."""
+    lines = {}
+
+    def scen(item, f):
+        if item["k"] == "s":
+            lines[id(item), 0] = f["line"]
+        else:
+            k = 0
+            for ex in f["examples"]:
+                for ln in ex["row_lines"]:
+                    lines[id(item), k] = ln
+                    k += 1
+    for item, f in zip(feat["items"], facts["items"]):
+        if item["k"] == "r":
+            for sub, f2 in zip(item["items"], f["items"]):
+                scen(sub, f2)
+        else:
+            scen(item, f)
+    out = []
+    seen = {}
+    for inst in scenario_instances(feat):
+        k = seen.get(id(inst["item"]), 0)
+        seen[id(inst["item"])] = k + 1
+        out.append(lines[id(inst["item"]), k])
+    return out
+
+
 def entity_table(feat, facts):
-    """[(line, kind, [scenario instance names])] sorted by line."""
+    """[(line, kind, [scenario instance lines])] sorted by line."""
     insts = list(scenario_instances(feat))
+    ilines = instance_lines(feat, facts)
     table = []
-    all_names = [i["name"] for i in insts]
+    all_names = list(ilines)
     table.append((facts["line"], "feature", list(all_names)))
 
     def scen(item, f, rule):
-        names = [i["name"] for i in insts if i["item"] is item]
+        names = [ln for i, ln in zip(insts, ilines) if i["item"] is item]
         if item["k"] == "s":
             table.append((f["line"], "scenario", names))
         else:
@@ -53,7 +83,7 @@ def entity_table(feat, facts):
                     k += 1
     for item, f in zip(feat["items"], facts["items"]):
         if item["k"] == "r":
-            names = [i["name"] for i in insts if i["rule"] is item]
+            names = [ln for i, ln in zip(insts, ilines) if i["rule"] is item]
             table.append((f["line"], "rule", names))
             for sub, f2 in zip(item["items"], f["items"]):
                 scen(sub, f2, item)
@@ -78,33 +108,33 @@ def select(table, all_names, line):
     return set(best)
 
 
-def protected(feat):
+def protected(feat, facts):
     """Scenario instances tagged @setup / @teardown are never skipped by location selection."""
     out = set()
-    for inst in scenario_instances(feat):
+    for inst, ln in zip(scenario_instances(feat), instance_lines(feat, facts)):
         if "setup" in inst["tags"] or "teardown" in inst["tags"]:
-            out.add(inst["name"])
+            out.add(ln)
     return out
 
 
 def skipped_map(feature):
-    return dict((s.name, bool(s.should_skip)) for s in feature.walk_scenarios())
+    return dict((s.line, bool(s.should_skip)) for s in feature.walk_scenarios())
 
 
-def check_selection(res, clause, feature_obj, feat, want, where):
+def check_selection(res, clause, feature_obj, feat, facts, want, where):
     if want is None:
         return True
-    prot = protected(feat)
+    prot = protected(feat, facts)
     got = skipped_map(feature_obj)
-    for inst in scenario_instances(feat):
-        name = inst["name"]
-        expect_skip = (name not in want) and (name not in prot)
-        if name not in got:
+    for inst, ln in zip(scenario_instances(feat), instance_lines(feat, facts)):
+        name = "%s@%d" % (inst["name"], ln)
+        expect_skip = (ln not in want) and (ln not in prot)
+        if ln not in got:
             res.fail(clause, "%s: scenario %r missing from the model" % (where, name))
             return False
-        if got[name] != expect_skip:
-            res.fail(clause, "%s: scenario %r should_skip=%s, expected %s (selection %s)"
-                     % (where, name, got[name], expect_skip, sorted(want)))
+        if got[ln] != expect_skip:
+            res.fail(clause, "%s: scenario %r should_skip=%s, expected %s (selection: lines %s)"
+                     % (where, name, got[ln], expect_skip, sorted(want)))
             return False
     return True
 
@@ -176,7 +206,7 @@ def check_lines(res, case):
                     continue
                 want = set().union(*wants)
                 clause = "C10.location.single" if len(group) == 1 else "C10.location.union"
-                if not check_selection(res, clause, features[0], feat, want, "%s:%s" % (path, group)):
+                if not check_selection(res, clause, features[0], feat, proj.facts[0], want, "%s:%s" % (path, group)):
                     res.violations[-1].detail = "group #%d: %s" % (idx, res.violations[-1].detail)
                     break
             res.evals = max(1, count)
@@ -192,18 +222,23 @@ def check_lines(res, case):
                     if run.escaped is not None:
                         res.fail("C10.run.escape", "run() raised %r" % (run.escaped,))
                     else:
-                        ran = set(n for n, _u in run.calls)
-                        allowed = want | protected(feat)
+                        ran = set(obj.line for obj in run.ran_scenarios)
+                        allowed = want | protected(feat, proj.facts[0])
                         if not ran <= allowed:
-                            res.fail("C10.run.executed", "file:%d selects %s but steps of %s ran"
+                            res.fail("C10.run.executed", "file:%d selects the scenarios at lines %s but those at %s were run"
                                      % (ln, sorted(want), sorted(ran - allowed)))
+                        elif set(n for n, _u in run.calls) and not ran:
+                            res.fail("C10.run.executed", "steps ran (%r) but no scenario was started" % (run.calls[:3],))
                     res.label("run-sample")
             kinds = set(k for _l, k, _n in table)
             res.nontrivial = len(table) >= 3 and len(kinds) >= 2
             for k in kinds:
                 res.label("entity:" + k)
-            if protected(feat):
+            if protected(feat, proj.facts[0]):
                 res.label("setup/teardown")
+            names = [i["name"] for i in scenario_instances(feat)]
+            if len(set(names)) < len(names):
+                res.label("scenario-names-not-unique")
             if feat.get("noise"):
                 res.label("noise")
     finally:
@@ -278,7 +313,7 @@ def check_list(res, case):
                 if any(w is None for w in wants):
                     continue
                 want = set().union(*wants)
-                check_selection(res, "C10.list.selection", fobj, prog["features"][fi], want,
+                check_selection(res, "C10.list.selection", fobj, prog["features"][fi], proj.facts[fi], want,
                                 "file #%d entries %s" % (fi, [e for e in entries if e[0] == fi]))
             res.nontrivial = len(order) >= 2 or len(entries) >= 2
             res.label("files:%d" % len(order))
@@ -367,6 +402,12 @@ def doc_program(draw, nfeatures=1, min_items=1):
             f["noise"] = draw(st.lists(st.integers(0, 200), min_size=1, max_size=8))
         if draw(st.booleans()):
             f["desc"] = ["= a description line"]
+        if draw(st.integers(0, 2)) == 0:
+            # equally named scenarios / outlines (typically the same title under two rules)
+            for item in f["items"]:
+                for sub in (item["items"] if item["k"] == "r" else [item]):
+                    if draw(st.booleans()):
+                        sub["name"] = draw(st.sampled_from([u"same", u"same", u"twin"]))
         feats.append(f)
     return {"features": feats, "cfg": {}}
 
@@ -422,7 +463,7 @@ def explore(rec):
 def required_labels(tier):
     return ["entity:feature", "entity:rule", "entity:outline", "entity:row", "entity:scenario", "setup/teardown",
             "noise", "all-pairs(doc<=12)", "run-sample", "via-listfile:subdir", "via-listfile:cwd", "via-args",
-            "listfile:indented-entry", "files:2", "locparse", "name", "name:row-selected"]
+            "listfile:indented-entry", "files:2", "locparse", "name", "name:row-selected", "scenario-names-not-unique"]
 
 
 def _f12(case, detail, info):
